@@ -641,10 +641,12 @@ func (s *KevoServiceServer) Compact(ctx context.Context, req *pb.CompactRequest)
 
 // GetNodeInfo returns information about this node and the replication topology
 func (s *KevoServiceServer) GetNodeInfo(ctx context.Context, req *pb.GetNodeInfoRequest) (*pb.GetNodeInfoResponse, error) {
-	// Create default response for standalone mode
+	// Create default response for standalone mode. The read-only status is the
+	// engine's, whoever set it: without a replication manager the node used to
+	// report read_only=false while its engine refused every write.
 	response := &pb.GetNodeInfoResponse{
 		NodeRole:       pb.GetNodeInfoResponse_STANDALONE, // Default to standalone
-		ReadOnly:       false,
+		ReadOnly:       s.engine != nil && s.engine.IsReadOnly(),
 		PrimaryAddress: "",
 		Replicas:       nil,
 		LastSequence:   0,
